@@ -129,6 +129,7 @@ def run(ctx):
             for e in reader_events(r):
                 f1.write(json.dumps(e, separators=(",", ":")) + "\n")
             f2.write(json.dumps(frame_event(r), separators=(",", ":")) + "\n")
+    big_frames(ctx, b)
     ctx.sample({"plan": cases[5]["plan"], "reader_cfg": cases[5]["cfg"], "events": reader_events(recs[cases[5]["id"]])[:8]})
     acc, rej = vlib.validate_trace(ctx, "Reader_Trace", t1, timeout=3000, max_reject=5)
     acc2, rejb = vlib.validate_trace(ctx, "LZ4Frame_Trace", t2, cfg="LZ4Frame_Trace_C16", timeout=3000, max_reject=5)
@@ -162,6 +163,36 @@ def run(ctx):
     ctx.assumptions += ["content up to ~9 MiB per frame; offsets are chosen by class, not all 65535 values"]
 
 
+def big_frames(ctx, b):
+    """A frame of 1026 dependent 4 MiB blocks (4 GiB + 8 MiB of 'A', every block's first match 65535 bytes back, i.e. in the
+    preceding block), generated on the fly: the Reader's 32-bit byte counters wrap on the way; the window (ReaderWindowInd:
+    inductive for every number of blocks) must not notice.  Judged directly: everything delivered, all of it 'A'."""
+    import subprocess
+    runs = [("read", 1, 1026)] if ctx.tier == "quick" else [("read", 1, 1026), ("writeto", 1, 1026), ("read", 4, 1026), ("read", 1, 2051)]
+    for mode, conc, blocks in runs:
+        def once():
+            p = subprocess.run([b, "big-linked", "--blocks", str(blocks), "--mode", mode, "--conc", str(conc)], stdout=subprocess.PIPE, stderr=subprocess.PIPE,
+                               text=True, timeout=900, env=vlib.GOENV)
+            if p.returncode != 0:
+                return {"crashed": p.stderr[-1500:]}
+            return json.loads(p.stdout.strip().splitlines()[-1])
+        r = once()
+        ctx.evaluations += 1
+        ctx.distinct += 1
+        ok = lambda x: not x.get("crashed") and x["err"] == "none" and not x["panicked"] and x["delivered"] == x["expected"] and x["allA"]
+        if ok(r):
+            continue
+        r2 = once()
+        if ok(r2):
+            ctx.unreproducible("big linked frame (%s, conc %d, %d blocks): %s" % (mode, conc, blocks, json.dumps(r)[:300]))
+            continue
+        key = "C16:big-frame:%s:conc=%s:%s" % (mode, "1" if conc == 1 else ">1", "crash" if r2.get("crashed") else ("panic" if r2.get("panicked") else
+                                                                                                     ("err=" + r2["err"] if r2["err"] != "none" else "wrong-content")))
+        ctx.violation(key, "a dependent-block frame of %d x 4 MiB is not decoded exactly: %s" % (blocks, key),
+                      {"kind": "c16-big", "mode": mode, "conc": conc, "blocks": blocks, "observed": r2})
+    ctx.extra["big_linked_frames"] = len(runs)
+
+
 def reader_events(r):
     ev = [{"ev": "rnew", "case": r["case"], "total": r["contentLen"], "conc": r["cfg"]["conc"], "linked": True, "declared": [0, 0, 0, 0]}]
     for blen, dlen in r["rblocks"]:
@@ -188,6 +219,16 @@ def replay(ctx, path):
     rp = json.load(open(path))
     b = vlib.build_harness()
     d = vlib.scratch("c16r")
+    if rp.get("kind") == "c16-big":
+        import subprocess
+        p = subprocess.run([b, "big-linked", "--blocks", str(rp["blocks"]), "--mode", rp["mode"], "--conc", str(rp["conc"])], stdout=subprocess.PIPE,
+                           stderr=subprocess.PIPE, text=True, timeout=900, env=vlib.GOENV)
+        x = json.loads(p.stdout.strip().splitlines()[-1]) if p.returncode == 0 else {"crashed": True}
+        if x.get("crashed") or x["err"] != "none" or x["panicked"] or x["delivered"] != x["expected"] or not x["allA"]:
+            print("VIOLATION property=%s replay=%s" % (ctx.prop, path))
+            return 1
+        print("replay: deviation not observed")
+        return 0
     c = rp["case"]
     rr, _ = fl.shard_run(b, "frame-read", [c], d, "r", nshards=1, extra=("--watchdog", "120s"))
     r2 = rr[c["id"]]
